@@ -265,6 +265,7 @@ def run_check(pid, tier, base_seed=None, n_runs=None, workers=None, budget_s=Non
     deadline = t0 + budget_s
     ctx = multiprocessing.get_context('fork')
     pending_min = []
+    stop_first = bool(os.environ.get('VERIF_STOP_ON_FIRST'))
     if getattr(mod, 'SERIAL', False) or workers <= 1:
         for k, s in enumerate(seeds):
             if time.time() > deadline:
@@ -299,6 +300,11 @@ def run_check(pid, tier, base_seed=None, n_runs=None, workers=None, budget_s=Non
                 except Exception as e:
                     dead_worker = True
                     harness_errors.append('worker died on seed %d: %r' % (s, e))
+                    break
+                if stop_first and results[-1].get('ok') and any(
+                        match_known(pid, v, results[-1].get('events'), results[-1].get('cfg'), known) is None
+                        for v in results[-1].get('violations') or []):
+                    # tooling (runs against seeded changes): the first violation that is not a known finding ends the batch
                     break
                 submit_more()
         finally:
